@@ -280,7 +280,7 @@ def failure_case(asm, acc, case):
             open(outp, 'wb').write(b'OLD BINARY \x00\x01')
             open(labp, 'w').write('OLD 0x00000000\n')
             open(hexp, 'w').write(':00000001FF\n')
-            old = time.time() - 1000
+            old = time.time() + (1000 if case.get('older_files_newer_than_source') else -1000)
             for p in (outp, labp, hexp):
                 os.utime(p, (old, old))
         if fault == 'hex_is_dir':
@@ -303,6 +303,8 @@ def failure_case(asm, acc, case):
         acc['ctr']['failure_runs'] += 1
         acc['ntkeys'].add(core.ckey('f', tuple(sorted((k, str(v)) for k, v in case.items()))))
         core.see(acc, 'faults', fault + ('/' + case['kind2'] if fault.startswith('inject:') else ''))
+        if not case.get('hex', True):
+            acc['ctr']['failure_runs_without_hex_offset_next_to_an_older_hex_file'] += 1
         if launcher and 'BBV-NOFUNC' in r.stderr:
             acc['ctr']['injected_function_missing'] += 1       # the tree has no function of that name (renamed / removed pass)
             core.see(acc, 'functions_not_called', fault)
@@ -310,7 +312,8 @@ def failure_case(asm, acc, case):
         if launcher and 'BBV-INJECTED' not in r.stderr:
             acc['ctr']['injection_not_reached'] += 1
             return
-        desc = 'failing CLI run (%s%s, compress=%s, older output files %s)' % (fault, '/' + case['kind2'] if launcher else '', case['compress'], 'present' if present else 'absent')
+        desc = 'failing CLI run (%s%s, compress=%s, older output files %s%s)' % (fault, '/' + case['kind2'] if launcher else '', case['compress'], 'present' if present else 'absent',
+                                                                                '' if case.get('hex', True) else ', no --hex-offset')
         if r.returncode == 0 and fault == 'hex_staging_blocked':
             # a tool that stages its hex file somewhere else is not hindered at all: then this is a successful run and owes a hex file
             ok = False
@@ -376,6 +379,11 @@ def plan(tier, seed):
             for kind2 in ('asm', 'runtime'):
                 for compress in ([True] if f == 'transform_compressible' else [False, True]):
                     cases.append({'what': 'failure', 'fault': 'inject:' + f, 'compress': compress, 'present': True, 'kind2': kind2, 'rep': rep})
+        # the same failures in runs that ask for no hex file at all: an older <out>.hex (older or newer than the source) is still somebody's file
+        for j, fault in enumerate(list(NATURAL) + ['inject:' + f for f in FUNCS] + ['missing_input', 'bad_include_dir', 'out_is_dir', 'labels_missing_dir']):
+            for newer in (False, True):
+                cases.append({'what': 'failure', 'fault': fault, 'compress': bool((j + rep + newer) & 1) or fault == 'inject:transform_compressible', 'present': True,
+                              'kind2': ('asm', 'runtime')[(j + rep) & 1] if fault.startswith('inject:') else '', 'rep': rep, 'hex': False, 'older_files_newer_than_source': newer})
     rng.shuffle(cases)
     nsh = 48 if tier == 'quick' else 1024
     shards = [{'cases': cases[i::nsh]} for i in range(nsh)]
